@@ -157,6 +157,20 @@ def run(F, R):
             calls += [(lib.norm(t.get("callee")).split("::")[-1], lib.apath(v.trace_op(t["args"][0]))) for _, t in v.calls() if t["args"]]
         touched = sorted(set([w[-1] for w in ws if w] + [a.split(".")[-1] for n_, a in calls if n_ in ("push",)]))
         R.check("C15-R3", "modifies-own-member:" + item, touched == [field], "%s touches only entry.%s" % (item, field), "%s touches %s" % (item, touched))
+    # the id setters set their own field and carry every other field of the builder over unchanged (whatever the call order)
+    for setter in ("request_id", "session_id"):
+        sb_ = lib.bodies(c, item=setter, impl_self=RB)
+        if not R.floor("C15-R3", "RequestBuilder::" + setter, len(sb_), 1):
+            continue
+        sv_ = BV.of(sb_[0])
+        ret_ = strip(sv_.trace_local(0))
+        if ret_[0] == "agg" and len(ret_) > 4 and (ret_[2] or "").endswith("RequestBuilder::RequestBuilder"):
+            got_ = dict(zip(ret_[4], [terms.render(sv_, v_, W, {1: "self", 2: "id"}) for v_ in ret_[3]]))
+            bad_ = {k_: v_ for k_, v_ in got_.items() if (v_ != "Some{id}" if k_ == setter else v_ != "self." + k_)}
+            R.check("C15-R3", "setter-preserves-others:" + setter, not bad_, "%s(id) = {%s: Some(id), ..self}" % (setter, setter), "%s(id) also changes %s" % (setter, bad_))
+        else:
+            ws_ = [smod_chain(p_) for (bi_, si_, p_, r_) in sv_.field_writes if bi_ in sv_.reach0]
+            R.check("C15-R3", "setter-preserves-others:" + setter, ret_ == ("param", 1) and ws_ and all(w_[-1:] == [setter] for w_ in ws_), "%s(id) writes only self.%s" % (setter, setter), "%s(id) writes %s" % (setter, ws_))
     fa = [b for b in lib.bodies(c, item="from", impl_self="protocol::request::App", impl_trait="std::convert::From")]
     if R.floor("C15-R3", "From<AppEntry> for protocol::request::App", len(fa), 1):
         fv = BV.of(fa[0])
